@@ -50,6 +50,8 @@ class Chooser:
             return 0
         if label in self.overrides:
             c = self.overrides[label] % n
+        elif self.overrides.get('__else__') and '.if(' in label:
+            c = n - 1        # take no branch / the else branch of every if: the shape that can host any other value
         elif self.rng is not None:
             c = self.rng.randrange(n)
         else:
@@ -254,6 +256,12 @@ class Encoder:
             else:
                 self.e.cons.append(x == 0)
             return x
+        if ty in ('AuraMask', 'CacheMask', 'EnchantMask', 'InspectTalentGearMask'):
+            return self.mask(ty, p, c)
+        if ty in ('AchievementDoneArray', 'AchievementInProgressArray'):
+            return self.sentinel_array(ty, p, c)
+        if ty == 'MonsterMoveSplines':
+            return self.splines(p)
         d = self.definer(ty)
         if d is not None:
             return self.definer_value(d, p, scope, m, up)
@@ -328,6 +336,54 @@ class Encoder:
                 self.emit([b])
         return None
 
+    # ------------------------------------------------------------------ built-in masks and arrays (types/*.md)
+    def mask(self, ty, p, c):
+        exp = self.view.get('exp')
+        if ty == 'AuraMask':
+            width = 32 if exp == 'vanilla' else 64
+            elem = 'u16' if exp == 'vanilla' else 'Aura'
+        elif ty == 'CacheMask':
+            width, elem = 32, 'u32'
+        elif ty == 'EnchantMask':
+            width, elem = 16, 'u16'
+        else:
+            width, elem = 32, 'InspectTalentGear'
+        pats = [1, 0, 1 << (width - 1), 5]
+        pat = pats[self.ch.choose(p + '#mask', len(pats))]
+        self.emit(le_bytes(BV(pat, width), width // 8))
+        for i in range(width):
+            if pat & (1 << i):
+                self.value(elem, '%s[%d]' % (p, i), {}, None, c)
+        return None
+
+    def sentinel_array(self, ty, p, c):
+        elem = 'AchievementDone' if ty == 'AchievementDoneArray' else 'AchievementInProgress'
+        opts = self.b.endless_counts
+        n = opts[self.ch.choose(p + '#count', len(opts))]
+        cd = self.container_def(elem)
+        for i in range(n):
+            start = len(self.e.bytes)
+            self.container(cd, '%s[%d]' % (p, i))
+            first = z3.Concat(*reversed(self.e.bytes[start:start + 4]))
+            self.e.cons.append(first != BV(0xFFFFFFFF, 32))    # the first member is the achievement id; -1 terminates
+        self.emit(le_bytes(BV(0xFFFFFFFF, 32), 4))
+        return None
+
+    def splines(self, p):
+        opts = self.b.endless_counts
+        n = opts[self.ch.choose(p + '#count', len(opts))]
+        self.emit(le_bytes(BV(n, 32), 4))
+        for i in range(n):
+            if i == 0:
+                for comp in 'xyz':
+                    self.emit(le_bytes(self.fresh('%s[0].%s' % (p, comp), 32), 4))
+            else:
+                # packed word in the image of to_packed(from_packed(w)) (types/monster-move-spline.md): every component a multiple of 4
+                w = self.fresh('%s[%d]' % (p, i), 32)
+                self.e.cons.append(w & BV((3) | (3 << 11) | (3 << 22), 32) == 0)
+                self.emit(le_bytes(w, 4))
+        return None
+
     # ------------------------------------------------------------------ arrays
     def array(self, m, p, scope, c, top):
         arr = m['arr']
@@ -379,7 +435,7 @@ def shapes(corpus, view, container, bounds, seed=0):
     """generator of (Encoding, chooser) over the covered shapes: baseline, every single-dimension variation, then
     seeded random combinations up to the cap. Infeasible shapes are skipped (decided by the caller's solver)."""
     done = set()
-    queue = [{}]
+    queue = [{}, {'__else__': True}]
     out = 0
     rng = random.Random(seed * 7919 + hash(container['name']) % 1000)
     tried = 0
@@ -395,7 +451,7 @@ def shapes(corpus, view, container, bounds, seed=0):
         done.add(sig)
         out += 1
         yield e, ch
-        if not ov.get('__random__'):
+        if not ov.get('__random__') and not ov.get('__else__'):
             for l, n, c in ch.seen:
                 for alt in range(n):
                     if alt != c and l not in ov:
